@@ -268,7 +268,89 @@ def nested_and_scoped(ctx):
             ctx.fail("nested:result", "uberjob.run (%s) gave %r instead of 5" % (kind, box["o"]), {"scenario": kind})
 
 
+def transform_cycles(ctx):
+    """a cycle that transform_physical introduces is rejected like any other: HasACycle, no call executed, no store written -
+    with and without a registry"""
+    import datetime as dt
+    import networkx as nx
+    uberjob = core.use_repo()
+
+    class Mem(uberjob.ValueStore):
+        def __init__(self):
+            self.v, self.t, self.writes = None, None, 0
+
+        def read(self):
+            return self.v
+
+        def write(self, v):
+            self.writes += 1
+            self.v, self.t = v, dt.datetime(2021, 1, 1)
+
+        def get_modified_time(self):
+            return self.t
+    for with_registry in (False, True):
+        for workers in (1, 3):
+            executed = []
+            plan, reg = uberjob.Plan(), uberjob.Registry()
+            a = plan.call(lambda: executed.append("a") or 1)
+            b = plan.call(lambda v: executed.append("b") or v + 1, a)
+            c = plan.call(lambda v: executed.append("c") or v + 1, b)
+            other = plan.call(lambda: executed.append("other") or 0)
+            st = Mem()
+            if with_registry:
+                reg.add(other, st)
+
+            def tp(pl, out):
+                pl.add_dependency(out, next(n for n in pl.graph.nodes() if n is a))       # output -> a: a cycle a -> b -> c -> a
+                return pl, out
+            ctx.case(("c07-transform-cycle", with_registry, workers))
+            try:
+                res = uberjob.run(plan, output=c, registry=reg if with_registry else None, transform_physical=tp, max_workers=workers, progress=None)
+                oc = "returned %r" % (res,)
+            except nx.HasACycle:
+                oc = "HasACycle"
+            except BaseException as e:      # noqa
+                oc = "raised %s" % type(e).__name__
+            if oc != "HasACycle" or executed or st.writes:
+                ctx.fail("transform-cycle", "transform_physical added a dependency that closes a cycle (%s registry): run %s; calls executed %r, store writes %d"
+                         % ("with" if with_registry else "without", oc, executed, st.writes), {"registry": with_registry, "max_workers": workers})
+
+
+def slow_progress_sink(ctx):
+    """the final progress output may take long (slow disk, blocked pipe): run still waits for the display thread it started"""
+    import functools
+    import threading
+    import time
+    uberjob = core.use_repo()
+    from uberjob.progress import Progress
+    from uberjob.progress._html_progress_observer import HtmlProgressObserver
+    for failing_call in (False, True):
+        calls = []
+
+        def sink(data):
+            time.sleep(0.8)
+            calls.append(time.time())
+        prog = Progress(functools.partial(HtmlProgressObserver, sink, initial_update_delay=0.05, min_update_interval=0.05, max_update_interval=0.1))
+        plan = uberjob.Plan()
+        x = plan.call((lambda: 1 / 0) if failing_call else (lambda: 1))
+        before = set(threading.enumerate())
+        try:
+            uberjob.run(plan, output=x, progress=prog, max_workers=2)
+        except uberjob.CallError:
+            pass
+        t_ret = time.time()
+        alive = [t.name for t in threading.enumerate() if t not in before and t.is_alive()]
+        time.sleep(1.2)
+        late = [t for t in calls if t > t_ret + 0.05]
+        ctx.case(("c07-slow-sink", failing_call))
+        if alive or late:
+            ctx.fail("slow-sink:thread-alive", "a slow progress sink: when run ended, threads it had started were still alive %r and the sink was written %d time(s) afterwards"
+                     % (alive, len(late)), {"failing_call": failing_call})
+
+
 def run(ctx):
+    transform_cycles(ctx)
+    slow_progress_sink(ctx)
     nested_and_scoped(ctx)
     observer_threads(ctx)
     failing_progress_output(ctx)
